@@ -179,7 +179,12 @@ pub fn gen_c03(rng: &mut Rng, tier: Tier) -> Case {
     let per_block = (bsz / avg.max(1)).max(1);
     let max_ops = if tier == Tier::Quick { 60 } else { 200 };
     let steps = gen_history(rng, &keys, max_ops, per_block);
-    Case::Cursor(CursorCase { spec, env: gen::gen_env(rng, true), steps, fresh_each: false, v1: false })
+    let mut env = gen::gen_env(rng, true);
+    if rng.chance(1, 4) {
+        // transient-fault family: one read or seek of the source fails somewhere in the history
+        env.faults = vec![crate::env::FaultSpec { k: rng.log_uniform(8, 3000), err: rng.below(9) as u8 }];
+    }
+    Case::Cursor(CursorCase { spec, env, steps, fresh_each: false, v1: false })
 }
 
 pub fn check_c03(case: &Case, st: &mut Stats) -> Verdict {
@@ -187,15 +192,34 @@ pub fn check_c03(case: &Case, st: &mut Stats) -> Verdict {
     let entries = c.spec.entries.materialize();
     let mut opts = RunOpts::default();
     opts.fingerprints = true;
+    opts.continue_after_err = !c.env.faults.is_empty();
     let r = run_case(case, &c.env, &opts);
     st.absorb_env(&r);
     if let Some(e) = &r.setup_err {
         return viol("C03", "setup", e.clone());
     }
+    // records that failed because of the injected transient fault (the fault fired inside them)
+    let fired = r.env.fired();
+    let mut errs = std::collections::BTreeSet::new();
+    for (i, rec) in r.recs.iter().enumerate() {
+        if rec.res.is_err() && fired.iter().any(|f| rec.clock_before < f.k && f.k <= rec.clock_after) {
+            errs.insert(i);
+        }
+    }
+    if !fired.is_empty() {
+        st.c.inc("fired.transient_source_fault_inside_history");
+        if errs.iter().any(|i| *i < 2) {
+            return None; // the open itself failed: nothing to judge (C12 judges the error)
+        }
+    }
     let mut ms = model::CursorModelStats { window_entries: 0, abs_from_window: 0, judged: 0, unjudged: 0 };
-    let exp = model::expect_cursor(c, &entries, &mut ms);
-    if let Some((_i, oracle, msg)) = model::compare(&r.recs, &exp) {
-        return viol("C03", &oracle, msg);
+    let exp = model::expect_cursor_with_errs(c, &entries, &mut ms, &errs);
+    if let Some((_i, oracle, msg)) = model::compare_allowing(&r.recs, &exp, &errs) {
+        let tag = if fired.is_empty() { oracle } else { format!("after-transient-fault.{}", oracle) };
+        return viol("C03", &tag, msg);
+    }
+    if !errs.is_empty() {
+        st.c.add("probe.absolute_move_judged_after_a_failed_call", ms.abs_from_window.min(1));
     }
     st.c.add("ops_judged", ms.judged);
     st.c.add("ops_unjudged_in_window", ms.unjudged);
@@ -245,9 +269,14 @@ pub fn gen_c16(rng: &mut Rng, tier: Tier) -> Case {
     } else {
         200_000
     };
-    let n = rng.log_uniform(0, maxn);
+    let mut n = rng.log_uniform(0, maxn);
     let width = if n > 60_000 { 4 } else { *rng.pick(&[3u8, 4, 8]) };
-    let vlen = *rng.pick(&[0u32, 4, 4, 16, 100]);
+    // one profile in five: entries about as large as a block, so every entry is its own data block
+    let mut vlen = *rng.pick(&[0u32, 4, 4, 16, 100]);
+    if rng.chance(1, 5) {
+        vlen = *rng.pick(&[600u32, 1100, 1500, 5000]);
+        n = n.min(if tier == Tier::Quick { 1500 } else { 6000 });
+    }
     let knobs = Knobs {
         codec: rng.weighted(&[50, 5, 10, 15, 10, 10]) as u8,
         level: 1,
